@@ -256,8 +256,8 @@ func init() {
 	ledger.RegisterWorkload(&ledger.Workload{
 		Name: "tokens",
 		GenExtra: func(r *sim.RNG, p *sim.Plan, tier string) {
-			// one or two of the four families per seed, so histories stay deep
-			fams := r.Perm(4)[:1+r.Intn(2)]
+			// one or two of the five families per seed, so histories stay deep
+			fams := r.Perm(5)[:1+r.Intn(2)]
 			var extra []sim.Step
 			for _, f := range fams {
 				switch f {
@@ -269,6 +269,8 @@ func init() {
 					extra = append(extra, genBridge(r.Child("bridge"), p, tier, true, true)...)
 				case 3:
 					extra = append(extra, genMultisig(r.Child("multisig"), p, tier)...)
+				case 4:
+					extra = append(extra, genMintRun(r.Child("mintrun"), p, tier)...)
 				}
 			}
 			if p.CfgInt("funding", 0) < 1e13 {
